@@ -2691,10 +2691,9 @@ class RootTransaction(Transaction):
         try:
             if self.is_active:
                 self._connection_rollback_impl()
-
+        finally:
             if self.connection._nested_transaction:
                 self.connection._nested_transaction._cancel()
-        finally:
             if self.is_active or try_deactivate:
                 self._deactivate_from_connection()
             if self.connection._transaction is self:
